@@ -54,7 +54,7 @@ func spkUniverseFor(prop string, thorough bool) *spkUniverse {
 	poolC := spkPool("pool-c", "10.0.3.0/24")
 	advD := bgpAdv("adv-d", 32, 128, 0, nil, nil, msel("rack", "b"), nil)
 	peers := []metallbv1beta2.BGPPeer{p1, p2}
-	u := &spkUniverse{Name: prop, Svcs: []string{"s1", "s2"}, Ifs: []string{"eth0", "eth1"}, AddrUniverse: []string{"10.0.1.1", "10.0.1.9", "fc00:1::1", "10.0.2.7"}}
+	u := &spkUniverse{Name: prop, Svcs: []string{"s1", "s2"}, Ifs: []string{"eth0", "eth1"}, AddrUniverse: []string{"10.0.1.1", "10.0.1.9", "fc00:1::1", "10.0.2.7", "fc00:1::2"}}
 	u.NodeVars = map[string][]spkNodeVariant{
 		spkMe: {{"rack-a", map[string]string{"rack": "a"}, false}, {"rack-a-unavailable", map[string]string{"rack": "a"}, true},
 			{"rack-a-excluded", map[string]string{"rack": "a", v1.LabelNodeExcludeBalancers: ""}, false}, {"rack-c", map[string]string{"rack": "c"}, false},
@@ -69,6 +69,9 @@ func spkUniverseFor(prop string, thorough bool) *spkUniverse {
 		{"lb-a-local", v1.ServiceTypeLoadBalancer, true, []string{"10.0.1.1"}},
 		{"clusterip-a", v1.ServiceTypeClusterIP, false, []string{"10.0.1.1"}},
 		{"lb-poolb", v1.ServiceTypeLoadBalancer, false, []string{"10.0.2.7"}},
+		// dual-stack with the IPv6 address listed first: the layer-2 election hashes the FIRST listed address
+		// (with both speakers alive, fc00:1::2 elects this node and 10.0.1.1 the other one)
+		{"lb-a6'+a", v1.ServiceTypeLoadBalancer, false, []string{"fc00:1::2", "10.0.1.1"}},
 		{"lb-outside", v1.ServiceTypeLoadBalancer, false, []string{"172.16.9.9"}},
 		{"lb-bogus", v1.ServiceTypeLoadBalancer, false, []string{"bogus"}},
 	}
@@ -122,7 +125,7 @@ func spkUniverseFor(prop string, thorough bool) *spkUniverse {
 		{Name: "pool-renamed", Pools: []metallbv1beta1.IPAddressPool{spkPool("pool-x", "10.0.1.0/24", "fc00:1::/64")}, L2Advs: []metallbv1beta1.L2Advertisement{l2("l2")}, BGPAdvs: []metallbv1beta1.BGPAdvertisement{advA}, Peers: peers},
 	}
 	if !thorough {
-		u.SvcVars = u.SvcVars[:7]
+		u.SvcVars = u.SvcVars[:8]
 		u.NodeVars[spkMe] = []spkNodeVariant{u.NodeVars[spkMe][0], u.NodeVars[spkMe][1], u.NodeVars[spkMe][2], u.NodeVars[spkMe][4]}
 	}
 	return u
